@@ -22,10 +22,13 @@ import (
 // connection). Every payload must be read by the connection that owns the ID, never by another,
 // and no new connection may be accepted. No timing oracle: writes are repeated until read.
 type LCase struct {
-	Ver   int     `json:"ver"`
-	SrvID int     `json:"srvid"` // length of the server's IDs (1..20)
-	CliID int     `json:"cliid"` // scen.EP.CID code for the clients
-	K     int     `json:"k"`
+	Ver   int `json:"ver"`
+	SrvID int `json:"srvid"` // length of the server's IDs (1..20)
+	CliID int `json:"cliid"` // scen.EP.CID code for the clients
+	K     int `json:"k"`
+	// MTU of the server (1.2 only): a small one makes the server fragment its ServerHello, the record the
+	// listener learns a connection's ID from
+	MTU   int     `json:"mtu,omitempty"`
 	Steps []LStep `json:"steps"`
 }
 
@@ -196,6 +199,7 @@ func runListener(c LCase, r *pbt.R) {
 		sEP.Curves, cEP.Curves = []uint16{0x1d}, []uint16{0x1d}
 	} else {
 		sEP.MinVer, sEP.MaxVer, cEP.MinVer, cEP.MaxVer = 12, 12, 12, 12
+		sEP.MTU = c.MTU
 	}
 	sopts, err := sEP.ServerOptions(env)
 	if err != nil {
@@ -533,6 +537,9 @@ func genListener(t *rapid.T) LCase {
 		CliID: rapid.SampledFrom([]int{-1, 1000, 1, 4, 8}).Draw(t, "cliid"), K: rapid.IntRange(2, 4).Draw(t, "k")}
 	if rapid.IntRange(0, 2).Draw(t, "v13") == 0 {
 		c.Ver = 13
+	}
+	if c.Ver == 12 {
+		c.MTU = rapid.SampledFrom([]int{0, 0, 0, 64, 100}).Draw(t, "mtu")
 	}
 	n := rapid.IntRange(1, 8).Draw(t, "n")
 	for s := 0; s < n; s++ {
